@@ -64,6 +64,8 @@ type input struct {
 	Seed       int64    `json:"seed,omitempty"` // content seed of a narrowed (replay) input
 	// Switches: which confirmed defects the probe found repaired on this tree (classification only)
 	Switches map[string]bool `json:"switches,omitempty"`
+	// DeadlineSec: write out what was recorded and end the process after that many seconds
+	DeadlineSec int `json:"deadlineSec,omitempty"`
 }
 
 func (in input) seedFor(bi int) int64 {
@@ -178,6 +180,7 @@ func TestCrashConform(t *testing.T) {
 	out := vh.NewResult()
 	defer out.Write()
 	defer machinery(out)
+	startDeadline(out, in.DeadlineSec)
 	replayed, nsteps := 0, 0
 	for bi, b := range in.Behaviours {
 		for _, ns := range in.NewState {
@@ -185,6 +188,7 @@ func TestCrashConform(t *testing.T) {
 				if be == "pebble" && in.Consts.off() > 0 {
 					continue
 				}
+				setCurrent(in.narrowed(b, ns, be, nil, in.seedFor(bi)))
 				n, d := conformOne(in, b, ns, be, in.seedFor(bi))
 				nsteps += n
 				replayed++
@@ -590,6 +594,7 @@ func (e *enumRun) dry() ([]int, bool) {
 }
 
 func (e *enumRun) trial(fi, k int, mode faultkv.Mode) {
+	setCurrent(e.in.narrowed(e.b, e.ns, e.be, &only{fi, k, map[faultkv.Mode]string{faultkv.FailAt: "fail", faultkv.CrashAfter: "crash"}[mode]}, e.seed))
 	w := e.newWorld()
 	if w == nil {
 		return
@@ -636,6 +641,7 @@ func TestCrashEnum(t *testing.T) {
 	out := vh.NewResult()
 	defer out.Write()
 	defer machinery(out)
+	startDeadline(out, in.DeadlineSec)
 	runs, trials := 0, 0
 	for bi, b := range in.Behaviours {
 		for _, ns := range in.NewState {
@@ -644,6 +650,7 @@ func TestCrashEnum(t *testing.T) {
 					continue
 				}
 				e := &enumRun{in: in, out: out, b: b, ops: extractOps(b), ns: ns, be: be, seed: in.seedFor(bi)}
+				setCurrent(in.narrowed(b, ns, be, nil, in.seedFor(bi)))
 				if in.Only != nil && in.Only.Op >= 0 {
 					e.trial(in.Only.Op, in.Only.K, modeOf(in.Only.Mode))
 					trials++
@@ -701,6 +708,7 @@ func TestCrashProbe(t *testing.T) {
 	out := vh.NewResult()
 	defer out.Write()
 	defer machinery(out)
+	setCurrent(vh.J{"probe": "all"})
 	seed := vh.Seed()
 	gen := consts{MaxH: 5, MaxVer: 3, InitH: 2, Boundary: 99, Genesis: true}
 	bnd := consts{MaxH: 4, MaxVer: 3, InitH: 2, Boundary: 2, Genesis: false}
@@ -790,12 +798,4 @@ func TestCrashProbe(t *testing.T) {
 		w.close()
 	}
 	out.Done(5, 5)
-}
-
-// machinery records a panic of the harness itself (never a verdict): the driver turns it into exit 2.
-func machinery(out *vh.Result) {
-	if r := recover(); r != nil {
-		out.Stats["machinery_error"] = fmt.Sprint(r)
-		panic(r)
-	}
 }
